@@ -115,7 +115,7 @@ def gen_nogc_consts():
         cf = strip_comments(rd("backend/src/compiler/stmt/control_flow.rs"))
         ret = _fn_body(cf, r"pub fn compile_typed_return\s*\(")
         if ret is not None:
-            pe = ret.find("OpCode::ExitNoGc")
+            pe = max(ret.find("OpCode::ExitNoGc"), ret.find("self.emit_exit_no_gc("))
             px = ret.find("self.compile_typed_expr(")
             pr = ret.find("OpCode::Return,")
             if pe >= 0 and px >= 0 and pr >= 0:
@@ -132,6 +132,9 @@ def gen_nogc_consts():
         raise ExtractError("emission-order probe failed: " + out[-300:])
     if text_order is not None and text_order != order and order != "RetNoExit":
         raise ExtractError(f"compile_typed_return reads as {text_order} but compiled code behaves as {order}")
+    flags = dict(re.findall(r"(error_restores_depth|inliner_skips_no_gc)=(true|false)", out))
+    if set(flags) != {"error_restores_depth", "inliner_skips_no_gc"}:
+        raise ExtractError("behavioural probe (error restore / inliner) failed: " + out[-300:])
     tb = strip_comments(rd("backend/src/compiler/functions/typed_body.rs"))
     body = _fn_body(tb, r"fn compile_typed_body\s*\(")
     if body is None:
@@ -151,5 +154,9 @@ def gen_nogc_consts():
            f"Definition OP_EXIT_NO_GC : N := {ops['ExitNoGc']}%N.\n",
            f"Definition api_enter_saturates : bool := {'true' if api_enter_saturates else 'false'}.\n",
            "Inductive ret_order := RetExitFirst | RetExitAfterExpr | RetNoExit.\n",
-           f"Definition return_exit_order : ret_order := {order}.\n"]
+           f"Definition return_exit_order : ret_order := {order}.\n",
+           "(* run_fast puts no_gc_depth back to its value at entry when a run fails (behavioural probe) *)\n",
+           f"Definition error_restores_depth : bool := {flags['error_restores_depth']}.\n",
+           "(* the inliner never inlines a function carrying @no_gc (behavioural probe at -O2) *)\n",
+           f"Definition inliner_skips_no_gc : bool := {flags['inliner_skips_no_gc']}.\n"]
     return write_if_changed("NoGcConsts.v", "".join(out))
